@@ -51,6 +51,8 @@ def run(ctx):
                     if rng.random() < 0.3:
                         tail[k] = rng.choice(SPECIAL_A)
                     tail[k] = min(max(tail[k], 5e-324), 1 - 2.0 ** -53)
+                    if rng.random() < 0.3:       # exactly representable angles (quarter and eighth turns, zero)
+                        tail[k + 1] = rng.choice([0.0, 0.25, 0.5, 0.75, 0.125, 0.375, 0.625, 0.875])
                 extra = [rng.random() for _ in range(rng.randint(0, 3))]
                 reqs.append({"op": "qvec", "D": D, "L": L, "x": [f2b(t) for t in tail + extra]})
                 infos.append((D, L, tail))
@@ -71,7 +73,7 @@ def run(ctx):
         check_vectors(ctx, r, D, L, tail, a["q"], "sample_q_vectors")
     # (ii) through real samples
     ss = S.generate(ctx, 10 if ctx.quick else 60, 2 if ctx.quick else 4, max_e=6, max_loops=4, routings_per_graph=1,
-                    names=["bubble", "sunrise", "banana4", "banana5", "triangle", "double_triangle", "tadpole"])
+                    names=["bubble", "sunrise", "banana4", "banana5", "triangle", "double_triangle", "tadpole"], kinds=("uniform", "angles"))
     S.run(ss)
     SC.corr_qvec(ctx, ss)
     for s in ss:
